@@ -31,3 +31,5 @@ def run(ck):
     sizes.init_size_relation(ck, "C06.R1")            # registers built from (signed, n_int, n_frac) keep the word they were given, n_int == 0 included
     routes.who_writes_codes(ck, "C02.R1")               # every write of codes goes through set_val (and so through wrap)
     fresh.no_hidden_state(ck, "C20.R8")                  # results depend on the documented state only (no caches / memos)
+    h_, _r = flags.handler_roles(ck, "C04.R1")
+    fresh.reset_only_by_user(ck, "C04.R7")
